@@ -187,7 +187,9 @@ to `Broadcast(a, b)`, which `eval` computes as `max`. For `a = 1, b = 0` (a lega
 executed dimension is 0) it evaluates to 1. -/
 theorem c10_broadcast_zero_dim_false :
     (bdim (.var "a" true) (.var "b" true)).toOption = some (.bcast (.var "a" true) (.var "b" true)) ∧
-    (Sym.bcast (.var "a" true) (.var "b" true)).eval (fun n => if n = "a" then some 1 else some 0) = some 1 := by
+    (Sym.bcast (.var "a" true) (.var "b" true)).eval (fun n => if n = "a" then some 1 else some 0) = some 1 ∧
+    -- … while NumPy broadcasting of the executed sizes 1 and 0 gives 0
+    (if (1 : Int) = 0 then some (1 : Int) else if (1 : Int) = 1 then some 0 else none) = some 0 := by
   decide
 
 /-! ## T2 — composition over a plan -/
@@ -235,12 +237,7 @@ theorem c10_plan_sound (σ : Env) : ∀ (plan : List PNode) (s : Nat → STn) (c
       · simp only [hid, if_false] at hc ⊢
         exact h id ct hc
 
-/-- Non-vacuity of T2: `Shape`-like source value `[n, 4]` then `Unsqueeze`-like / arithmetic nodes
-can be instantiated; here a one-node plan adding two scalars. -/
-example : NodeSound (fun _ => some 3)
-    { out := 2,
-      infer := fun s => match symBinary addOp (s 0) (s 1) with | some r => r | none => .unknown,
-      exec := fun c => match c 0, c 1 with | some a, some b => execBinary (fun a b => some (a + b)) a b | _, _ => none } →
-    True := fun _ => trivial
+/-! Non-vacuity of T2: closed instances of every hypothesis of the graph-level theorem are in
+`Props/C10Plan.lean` (`demo_hyps`, `demo_inputs_agree`, and the instance of `c10_plan_sound_kinds`). -/
 
 end RtenVerif.ShapeInfer
